@@ -28,6 +28,14 @@ RULE = ('Strings also with BOM, NUL, U+FFFD, separators, whitespace and '
         'Non-trivial: value outside the repository TEST_DATA and, for '
         'variable-length types, encoded length >= 2; distinct by (spec, '
         'value) and (spec, value, cut).')
+RULE += (' ' +
+         'Added in later rounds: strings of 1-2 MiB with multi-byte '
+         'characters off alignment and the 2^21 length-prefix boundary; BOM '
+         '/ NUL / line-separator characters; 31 look-alike texts (ids, '
+         'numbers, keys, JSON in non-canonical spellings); angles of any '
+         'finite magnitude (floats to 1e300, ints to 2^80) against the exact '
+         'rational oracle; overlapping calls (harness-owned preemption) on '
+         'every type. ')
 LEVEL_TEXT = ('Differential testing of every primitive wire type against an '
               'independent reference codec in both directions, exhaustive '
               'for all 8/16-bit types, booleans and angle bytes, sampled '
